@@ -1,6 +1,6 @@
 (* C06/Property.v — property theorems only. *)
 From Coq Require Import String List Bool.
-From Verif Require Import Base.Str Base.Py Base.Py2 C06.Model C06.Spec C06.Proofs C06.Reflect C06.Methods C06.Source C06.Source2.
+From Verif Require Import Base.Str Base.Py Base.Py2 C06.Model C06.Spec C06.Proofs C06.Reflect C06.Methods C06.History C06.Source C06.Source2.
 From VerifGen Require Import C06Tables C06Src C06Src2.
 
 (* C06: for every outstanding set, InResponseTo placement, status, version and shape the modelled
@@ -221,3 +221,64 @@ Theorem c06_source_subject_repeat_check : forall asyn x l, plain_dict x = true -
     then PExc "UnsolicitedResponse" else PNone.
 Proof. exact src_subject_repeat_check. Qed.
 Print Assumptions c06_source_subject_repeat_check.
+
+(* ------------------------------------------------------------------------------------------ histories
+   C06 over HISTORIES: whatever the process handled before - logout responses, responses to attribute /
+   authentication / authorisation queries, NameID management and mapping responses, assertion-id and artifact
+   responses, earlier authentication Responses, undecodable messages, on the same client, on another client or
+   before the receiving client was built - the decision of the code as it is now satisfies every clause of the
+   property (receiver set-up, delivery, confirmation methods as in c06_methods).  No guard. *)
+Theorem c06_histories : forall h s ym, spec_h h s ym (receive_h h s ym).
+Proof. exact histories_hold. Qed.
+Print Assumptions c06_histories.
+
+(* as coded the decision does not read anything an earlier message left behind *)
+Theorem c06_history_irrelevant : forall h s ym, receive_h h s ym = receive_cfg_m s ym.
+Proof. exact history_irrelevant. Qed.
+Print Assumptions c06_history_irrelevant.
+
+(* the neighbourhood: a list of tolerated second-level codes that ALL response classes share and that making a
+   logout response object fills ([receive_h_shared]) breaks the property: after a logout response a Response with
+   status Responder / PartialLogout that answers an outstanding request is turned into identity *)
+Theorem c06_shared_tolerance_refuted : exists h s ym, ~ spec_h h s ym (receive_h_shared h s ym).
+Proof. exact shared_tolerance_refuted. Qed.
+Print Assumptions c06_shared_tolerance_refuted.
+
+(* ... and only then: without a logout response in the history, and for every other second-level code at any time,
+   that variant decides like the code - single-message cases cannot tell them apart *)
+Theorem c06_shared_tolerance_needs_logout : forall h s ym,
+  existsb makes_logout_response h = false \/ status_second (resp (base ym)) <> Some PARTIAL_LOGOUT ->
+  receive_h_shared h s ym = receive_h h s ym.
+Proof.
+  intros h s ym [H|H]; rewrite history_irrelevant; [exact (shared_needs_logout h s ym H)|exact (shared_other_codes h s ym H)].
+Qed.
+Print Assumptions c06_shared_tolerance_needs_logout.
+
+(* whatever second-level code a status test lets pass, a Response failing with that code is turned into identity *)
+Theorem c06_any_tolerance_refuted : forall c,
+  ~ spec_cm plain_setup (failed_with RESPONDER (Some c)) (receive_tol (c :: nil) plain_setup (failed_with RESPONDER (Some c))).
+Proof. exact any_tolerance_refuted. Qed.
+Print Assumptions c06_any_tolerance_refuted.
+
+Theorem c06_history_spec_b_sound : forall h s ym v, spec_h_b h s ym v = true -> spec_h h s ym v.
+Proof. exact spec_h_b_sound. Qed.
+Print Assumptions c06_history_spec_b_sound.
+
+(* tie of the status test to the source TEXT (coq/gen/C06Src2.v, translator v2, re-translated on this run): the
+   statements of StatusResponse.status_ok in front of the table lookup - cut out by harness/c06.py:status_slice, which
+   also checks that what follows is `err_cls = STATUSCODE2EXCEPTION.get(err_code, StatusError); msg = ...; raise
+   err_cls(msg)`, that no response class overrides status_ok and that nothing in the module writes to the table - let the
+   test pass exactly when the top-level code IS the Success URN (or there is no Status at all) and otherwise look up the
+   second-level code (None when absent): they read self.response.status and nothing else - no attribute of the object,
+   of its class or of the module that an earlier message could have left behind *)
+Theorem c06_source_status_ok : forall top second msg,
+  src2_status_ok_head (enc_status_self (enc_status top second msg))
+  = if String.eqb top STATUS_SUCCESS then PBool true else enc_optstr second.
+Proof. exact src_status_ok_head. Qed.
+Print Assumptions c06_source_status_ok.
+
+Theorem c06_source_status_ok_is_model : forall x msg,
+  src2_status_ok_head (enc_status_self (enc_status (status_top x) (status_second x) msg))
+  = if negb (String.eqb (status_top x) STATUS_SUCCESS) then enc_optstr (status_second x) else PBool true.
+Proof. exact src_status_ok_is_model. Qed.
+Print Assumptions c06_source_status_ok_is_model.
